@@ -212,6 +212,34 @@ def check(prog, rep):
     early_ret = [s.lineno for s in iter_stmts(top[: order.get('print_pqr', (len(top),))[0]]) if isinstance(s, ast.Return)]
     r3.add("no-early-return", not early_ret, f"returns before the output stage: {early_ret or 'none'}", wmd)
 
+    # check_options on model option sets: the value tested is the one the pipeline uses (the destination of --with-ph; PROPKA's parser adds an
+    # option of its own that differs from it only in case)
+    from ..guards import Flow, Obj
+    from ..objinterp import ObjRunner
+    dests = [kw_.value.value for c in ast.walk(prog.module("main.py").tree) if isinstance(c, ast.Call) and U(c.func).endswith("add_argument") and c.args
+             and isinstance(c.args[0], ast.Constant) and c.args[0].value == "--with-ph" for kw_ in c.keywords if kw_.arg == "dest" and isinstance(kw_.value, ast.Constant)]
+    if len(dests) != 1:
+        raise AnalysisError(f"main.py: destination of --with-ph not found ({dests})")
+    ph_dest = dests[0]
+    wco = f"pdb2pqr/main.py:{prog.func('main.py', 'check_options').node.lineno} (check_options)"
+    base = {"ff": "AMBER", "neutraln": False, "neutralc": False, "pH": 7.0, "ph": 7.0, "thermophiles": None, "chains": None, "alignment": None, "mutations": None,
+            "mutator": None, "mutator_options": None, "reuse_ligand_mol2_file": False, "keep_protons": False, "titrate_only": None, "display_coupled_residues": False,
+            "protonate_all": False}
+    cases = [("pH 7", {ph_dest: 7.0}, False), ("pH 0", {ph_dest: 0.0}, False), ("pH 14", {ph_dest: 14.0}, False), ("pH 15", {ph_dest: 15.0}, True),
+             ("pH -2", {ph_dest: -2.0}, True), ("pH 14.5", {ph_dest: 14.5}, True), ("--neutraln with AMBER", {"neutraln": True}, True),
+             ("--neutralc without a force field", {"neutralc": True, "ff": None}, True), ("--neutraln --neutralc with parse", {"neutraln": True, "neutralc": True, "ff": "parse"}, False),
+             ("--neutralc with PARSE", {"neutralc": True, "ff": "PARSE"}, False)]
+    for label, over, refused in cases:
+        ns = Obj({"__class__": "Namespace", **base, **over})
+        run = ObjRunner(prog, "main.py")
+        try:
+            run.call_function("main.py", "check_options", ns)
+            outcome = "accepted"
+        except Flow as fl:
+            outcome = f"refused with {fl.value}"
+        r3.add(f"options|{label}", outcome.startswith("refused") == refused, f"option set {label} ({over}): {outcome}" +
+               ("" if outcome.startswith("refused") == refused else " -- expected " + ("a refusal before any work" if refused else "acceptance")), wco)
+
     # ------------------------------------------------------------------ R4
     r4 = rep.rule("R4", "failure signals exist, are reachable and arrive at the top as errors", floor=6)
     esc_md = rs.escaping["main.py::main_driver"]
@@ -247,6 +275,8 @@ def check(prog, rep):
     r8 = rep.rule("R8", "the integrality guard is a must-pass placed after every parameter assignment", floor=4)
     c02.check_guard(prog, r8)
     shared.rule_patch_isolation(prog, rep, "R7")
+    from .c04 import rule_gap_is_loud
+    rep.guarded(rule_gap_is_loud, prog, rep, "R9")
     # ------------------------------------------------------------------ R6
     r6 = rep.rule("R6", "a structure without atoms fails before any output on every path", floor=1)
     pi = order.get("print_pqr", (None,))[0]
